@@ -7,7 +7,10 @@
 //! polled or not, and stores nothing.  `enable` registers the future without a waker and reports
 //! whether it is already complete.  No notification is ever lost: a `Notified` future that received
 //! a `notify_one` and is dropped before it was polled to completion passes the notification on
-//! (to another waiter, else as the stored permit).
+//! (to another waiter, else as the stored permit).  The same holds when the drop is a cancellation:
+//! a task aborted while it awaits (or while it holds an enabled future across `yield_now`), or a
+//! `time::timeout(notified())` expired by `trigger_timeouts`.  Waking the next waiter is then a
+//! scheduling step of the cancelled task inside its destructor (`m_cancel_begin` / `m_cancel_step`).
 //!
 //! The wrapper picks the waiter to wake with `shuttle::rand`; the explorer therefore branches over a
 //! data menu that reaches every waiter (see `rand_menu`).
